@@ -41,6 +41,10 @@ for f in ("dec", "hex"):
         "start = abs_pos() and prefix = pos_in_token() read back to back: start - prefix = orig_size - len_remaining >= 0 by the cursor invariant", **FW)
 add(LX + "ident|overflow:Sub|Sub(abs_pos(&*self), pos_in_token(&*self))", "field-writers",
     "abs_pos() = (orig_size - len_remaining) + pos_in_token(), so the difference is orig_size - len_remaining >= 0 by the cursor invariant", **FW)
+# the same position computed from what is left of the text (a form the cursor may take after a clean-up; no such site on the pinned tree)
+add("lexer::cursor::Cursor::<'sess>::abs_pos|overflow:Sub|Sub(*self.orig_size, len(&*as_str(&*self.chars)))", "field-writers",
+    "orig_size is only ever src.len() (in new), where chars = src.chars(); Chars::as_str() is a suffix of that very text, so its length is at most orig_size",
+    adt=CUR, field="orig_size", writers=["lexer::cursor::Cursor::<'sess>::new"])
 add("lexer::cursor::Cursor::<'sess>::abs_pos|overflow:Sub|Sub(*self.orig_size, *self.len_remaining)", "field-writers",
     "len_remaining is only ever src.len() (= orig_size, in new) or chars.as_str().len() (<= src.len(), in reset_pos)", **FW)
 add("lexer::cursor::Cursor::<'sess>::abs_pos|overflow:Add|Add((*self.orig_size - *self.len_remaining), pos_in_token(&*self))", "field-writers",
@@ -198,6 +202,12 @@ FMTW = ("fmt::Write::write_fmt over lace's own writers, whose write_str stores O
         "an Err could only come from a Display impl, and the values printed are integers, chars, strs and lace's own Colored/Decolored wrappers, which forward the writer's answer")
 add(OUT + "print_fmt|unwrap|expect(write_fmt(&adt:lace::output::NormalWriter:NormalWriter{minimal}, args))", "reviewed", FMTW)
 add(OUT + "print_fmt|unwrap|expect(write_fmt(&adt:lace::output::DebuggerWriter:DebuggerWriter{minimal, *category}, args))", "reviewed", FMTW)
+
+add("debugger::resolve_symbol_name::{closure#0}|overflow:Add|Add(*_1.0, 1)", "reviewed",
+    "the lookup is given a breakpoint address minus the origin; a breakpoint address is a statement index (at most 65534: the parser refuses longer programs, C05.R5) "
+    "plus the origin, or a user-space address below 0xFE00 (C13.R1/R2), so the argument is at most 0xFFFE (checked on the binary: `.orig x0000`, `.blkw xFFFE`, `.break`)")
+add(TT + "Terminal::print_prompt::{closure#5}|overflow:Add|Add(len(&*const debugger::command::reader::PROMPT), *_1.0)", "assumption",
+    "A1: the prompt's length plus the cursor, which is at most the number of characters of an in-memory line, does not overflow usize")
 
 # ---------------------------------------------------------------- VM (C02 / C03)
 RT = "runtime::"
